@@ -106,10 +106,24 @@ fn observe(mode: Mode, path: &[Value], suffix_rounds: usize) -> Vec<Value> {
                     && p["rr"] == json!(false)
             })
             .collect();
+        // the token each endpoint has handed out / insists on ("-" while none is fixed)
+        let tokens: Vec<String> = (0..2)
+            .map(|e| {
+                let p = w.proj_ep(e);
+                let st = p["st"].as_str().unwrap_or("");
+                if w.mode.v7 {
+                    if st == "Unc" || st == "Disc" { "-".to_string() } else { p["own"].as_str().unwrap_or("-").to_string() }
+                } else if st == "Pend" || st == "Onl" {
+                    p["tok"].as_str().unwrap_or("-").to_string()
+                } else {
+                    "-".to_string()
+                }
+            })
+            .collect();
         let st: Vec<String> = (0..2).map(|e| w.proj_ep(e)["st"].as_str().unwrap_or("").to_string()).collect();
         json!({"a": act["a"], "act": act, "res": if o.res.starts_with("panic") { "panic".to_string() } else { o.res.clone() },
                "detail": o.res, "evs": o.evs, "nouts": o.outs.len(), "malformed": newm,
-               "nt": [w.needs_tick_ms(0), w.needs_tick_ms(1)], "busy": busy, "idle": idle, "st": st, "answered": w.answered,
+               "nt": [w.needs_tick_ms(0), w.needs_tick_ms(1)], "busy": busy, "idle": idle, "st": st, "answered": w.answered, "tokens": tokens,
                "inflight": w.net[0].len() + w.net[1].len()})
     };
     for act in path {
